@@ -53,43 +53,48 @@ ALL_PROP = ["PassImplementsRel", "PoolTimeoutExact", "RetryOnlyUnsent"]
 # property -> what TLC checks on the model, and which executions are recorded
 PLAN = {
     "C04": {
+        "mc_thorough": ["CfgsMbase"],
         "inv": ["TypeOK", "ConnLimit"],
         "prop": ["PassImplementsRel"],
         "mc_quick": ["CfgsQ1", "CfgsQ2"],
         "vacuity": [("DevLimit", "CfgsQ1", "ConnLimit")],
         "scen_quick": ["h1-max1-AAB", "h1-max2-AAAA", "h1-max1-close", "h1-guess-max1", "h1-retries-max1-AA", "h2-max1-AAB"],
-        "scen_thorough": ["h1-max1-AAB", "h1-max2-AAAA", "h1-max1-close", "h1-guess-max1", "h1-guess-max2", "h1-max3-ABCAB", "h1-max2-ABC-keep0", "h1-max2-ABA-keep1", "h1-tls-max1-AAB", "h1-max1-abandon", "h1-retries-max1-AA", "h1-retries-max2-AB", "h2-max1-AAB", "h2-max1-BAB"],
+        "scen_thorough": ["h1-max1-AAB", "h1-max2-AAAA", "h1-max1-close", "h1-guess-max1", "h1-guess-max2", "h1-max3-ABCAB", "h1-max2-ABC-keep0", "h1-max2-ABA-keep1", "h1-tls-max1-AAB", "h1-max1-abandon", "h1-retries-max1-AA", "h1-retries-max2-AB", "h2-max1-AAB", "h2-max1-BAB", "tun-max1-AAB", "socks-max1-AAB"],
         "strategies": ["base", "dfs", "fault", "cancel-scope", "late", "late+fault"],
     },
     "C05": {
+        "mc_thorough": ["CfgsMbase"],
         "inv": ["TypeOK", "Forgotten", "NoZombie"],
         "prop": [],
         "mc_quick": ["CfgsQ1"],
         "vacuity": [("DevFresh", "CfgsQ1", "NoZombie"), ("DevGate", "CfgsQ1", "NoZombie"), ("DevNoRemove", "CfgsQ1", "Forgotten")],
-        "scen_quick": ["h1-max1-A", "h1-max1-AA", "h1-tls-max1-AAB", "h2-max1-AA"],
-        "scen_thorough": ["h1-max1-A", "h1-max1-AA", "h1-max1-AAB", "h1-tls-max1-AAB", "h1-max1-close", "h1-max1-abandon", "h1-guess-max1", "h1-max2-ABA-keep1", "h2-max1-AA", "h2-max1-AAB"],
+        "scen_quick": ["h1-max1-A", "h1-max1-AA", "h1-tls-max1-AAB", "h2-max1-AA", "tun-max1-AAB"],
+        "scen_thorough": ["h1-max1-A", "h1-max1-AA", "h1-max1-AAB", "h1-tls-max1-AAB", "h1-max1-close", "h1-max1-abandon", "h1-guess-max1", "h1-max2-ABA-keep1", "h2-max1-AA", "h2-max1-AAB", "tun-max1-AAB", "fwd-max1-AAB", "socks-max1-AAB"],
         "strategies": ["base", "fault", "cancel-scope", "cancel-native"],
     },
     "C06": {
+        "mc_thorough": ["CfgsMbase"],
         "inv": ["TypeOK", "StreamOwned"],
         "prop": [],
         "mc_quick": ["CfgsQ1"],
         "vacuity": [("DevEstab", "CfgsQ1", "StreamOwned")],
-        "scen_quick": ["h1-max1-AA", "h1-tls-max1-AAB", "h2-max1-AAB"],
-        "scen_thorough": ["h1-max1-A", "h1-max1-AA", "h1-max1-AAB", "h1-tls-max1-AAB", "h1-max1-close", "h1-max1-abandon", "h1-max2-ABC-keep0", "h2-max1-AAB", "h2-max1-AA"],
+        "scen_quick": ["h1-max1-AA", "h1-tls-max1-AAB", "h2-max1-AAB", "tun-max1-AAB", "socks-max1-AAB"],
+        "scen_thorough": ["h1-max1-A", "h1-max1-AA", "h1-max1-AAB", "h1-tls-max1-AAB", "h1-max1-close", "h1-max1-abandon", "h1-max2-ABC-keep0", "h2-max1-AAB", "h2-max1-AA", "tun-max1-AAB", "fwd-max1-AAB", "socks-max1-AAB"],
         "strategies": ["base", "fault", "cancel-scope", "cancel-native", "poolclose"],
     },
     "C07": {
+        "mc_thorough": ["CfgsMbase", "CfgsMto"],
         "inv": ["TypeOK", "NoServiceableWaiter"],
         "prop": ["PassImplementsRel"],
         "mc_quick": [("CfgsQ1a", {"maxclock": 1}), ("CfgsQ3a", {"faults": 0})],
         "live": "CfgsL1",
         "vacuity": [("DevNoPass", "CfgsQ1", "NoServiceableWaiter")],
         "scen_quick": ["h1-max1-AAB", "h1-max1-pto", "h1-guess-max1", "h2-max1-BAB"],
-        "scen_thorough": ["h1-max1-AAB", "h1-max1-pto", "h1-max1-pto-AB", "h1-guess-max1", "h1-guess-max2", "h1-max2-AAAA", "h1-max1-close", "h1-max1-abandon", "h1-max3-ABCAB", "h2-max1-BAB", "h2-max1-AAB"],
+        "scen_thorough": ["h1-max1-AAB", "h1-max1-pto", "h1-max1-pto-AB", "h1-guess-max1", "h1-guess-max2", "h1-max2-AAAA", "h1-max1-close", "h1-max1-abandon", "h1-max3-ABCAB", "h2-max1-BAB", "h2-max1-AAB", "fwd-max1-AAB", "tun-max1-AAB"],
         "strategies": ["base", "dfs", "fault", "cancel-scope"],
     },
     "C01": {
+        "mc_thorough": ["CfgsMbase"],
         "inv": ["TypeOK", "OwnResponse", "ReuseGate"],
         "prop": [],
         "mc_quick": [("CfgsQ1", {"maxclock": 1})],
@@ -99,6 +104,7 @@ PLAN = {
         "strategies": ["base", "dfs", "fault", "cancel-scope", "sequential"],
     },
     "C14": {
+        "mc_thorough": ["CfgsMbase"],
         "inv": ["TypeOK", "AtMostOnce"],
         "prop": ["RetryOnlyUnsent"],
         "mc_quick": [("CfgsQ1", {"maxclock": 1}), ("CfgsQ3a", {})],
@@ -108,6 +114,7 @@ PLAN = {
         "strategies": ["base", "dfs", "fault"],
     },
     "C10": {
+        "mc_thorough": ["CfgsMbase"],
         "inv": ["TypeOK"],
         "prop": ["PassImplementsRel"],
         "mc_quick": [("CfgsQ2", {"faults": 0, "maxclock": 0})],
@@ -117,6 +124,7 @@ PLAN = {
         "strategies": ["base", "dfs", "sequential"],
     },
     "C16": {
+        "mc_thorough": ["CfgsMto"],
         "inv": ["TypeOK", "Forgotten"],
         "prop": ["PoolTimeoutExact"],
         "mc_quick": [("CfgsTO", {"maxclock": 3, "faults": 0})],
@@ -126,6 +134,7 @@ PLAN = {
         "strategies": ["base", "dfs", "late", "time"],
     },
     "C03": {
+        "mc_thorough": ["CfgsMbase"],
         # on a shared HTTP/2 connection the requests of the OTHER callers still reach the server
         # decodable when a caller fails or is cancelled at any point (HPACK state, frame order)
         "inv": ["TypeOK", "AtMostOnce"],
@@ -137,6 +146,7 @@ PLAN = {
         "strategies": ["base", "dfs", "fault", "cancel-scope"],
     },
     "C09": {
+        "mc_thorough": ["CfgsMexp"],
         "inv": ["TypeOK"],
         "prop": ["PassImplementsRel"],
         "mc_quick": ["CfgsQ2", "CfgsK1"],
@@ -192,12 +202,20 @@ class PoolRunner:
             states += res["distinct"]
             trans += res["states"]
         if self.tier == "thorough":
-            res = tlc.model_check("MCPool", mc_cfg("CfgsT", ALL_INV, ALL_PROP, faults=2, styles="StylesScope"), timeout=7200, tag="mcT")
-            runs.append({"cfgs": "CfgsT", "distinct": res["distinct"], "generated": res["states"], "ok": res["ok"], "wall_s": round(res["wall_s"], 1)})
+            # exhaustive: the property's slices of the medium product instance, ALL invariants
+            for cfgs in self.plan.get("mc_thorough", ["CfgsMbase"]):
+                res = tlc.model_check("MCPool", mc_cfg(cfgs, ALL_INV, ALL_PROP, faults=1, styles="StylesScope"), timeout=3600, tag="mcT")
+                runs.append({"cfgs": cfgs, "distinct": res["distinct"], "generated": res["states"], "ok": res["ok"], "wall_s": round(res["wall_s"], 1)})
+                if not res["ok"]:
+                    raise tlc.MachineryError(f"thorough instance {cfgs} violates the model's own properties:\n" + "\n".join(res["errors"][:5]))
+                states += res["distinct"]
+                trans += res["states"]
+            # simulation: the full product (216 configurations), two faults, both cancellation styles
+            res = tlc.simulate("MCPool", mc_cfg("CfgsT", ALL_INV, ALL_PROP, faults=2, styles="StylesBoth", maxclock=2), seconds=240, depth=90, seed=seed(), tag="simT")
+            runs.append({"cfgs": "CfgsT", "mode": "simulation 240 s, depth 90", "states_checked": res["sim_states"], "behaviours": res["sim_traces"], "ok": res["ok"]})
             if not res["ok"]:
-                raise tlc.MachineryError("thorough instance violates the model's own properties:\n" + "\n".join(res["errors"][:5]))
-            states += res["distinct"]
-            trans += res["states"]
+                raise tlc.MachineryError("simulation of the full product instance violates the model's own properties:\n" + "\n".join(res["errors"][:5]))
+            trans += res["sim_states"]
         if self.plan.get("live"):
             res = tlc.model_check(
                 "MCPool",
